@@ -334,3 +334,26 @@ impl<'a> LatticeBuilder<'a> {
         Ok(other)
     }
 }
+
+/// Verification hooks: read-only views of the recycled working state
+#[cfg(feature = "verif")]
+impl<D: DictionaryAccess> StatefulTokenizer<D> {
+    pub fn verif_lattice(&self) -> &Lattice {
+        &self.lattice
+    }
+
+    pub fn verif_input(&self) -> &InputBuffer {
+        &self.input
+    }
+
+    /// (oov scratch length, path id scratch length, length of the result path if present, subset, mode)
+    pub fn verif_state(&self) -> (usize, usize, Option<usize>, InfoSubset, Mode) {
+        (
+            self.oov.len(),
+            self.top_path_ids.len(),
+            self.top_path.as_ref().map(|p| p.len()),
+            self.subset,
+            self.mode,
+        )
+    }
+}
